@@ -5,7 +5,7 @@ from srcreplay import replay_src  # translated source run in Coq vs the real out
 
 PROP = {
     "confirm_scenarios": ['silence.*'],
-    "coq": ["C19", "C19s", "C19b"],
+    "coq": ["C19", "C19s", "C19b", "C19c"],
     "pre": [regen_src],
     "extra": [replay_src({'timing'})],
     "exhaustive": False,
@@ -26,7 +26,16 @@ PROP = {
             "device on the pty master that replies while the client is blocked in its read; the smallest gap between the instant just "
             "before reply k is written and the arrival of the first byte of request k+1 is printed and must satisfy silence_okb of "
             "Model/TimingLine.v (extracted): gap >= t35(speed), a function of the speed only (Properties/C19b.v). Line settings the "
-            "serial layer refuses are counted (silenceframing:skipped-open) and not run.",
+            "serial layer refuses are counted (silenceframing:skipped-open) and not run."
+            " Scenario silenceslow: GOOD replies (valid CRC, accepted by the client) that reach the client slowly - header first and "
+            "the rest after a pause, byte by byte with gaps, in two or three segments at random cuts, the pauses adding up to "
+            "0.5/1/2/5/20 x the line time of the bytes that follow the header - on three links: rtuovertcp on a scripted connection "
+            "with real deadlines, rtuovertcp through the real Open() against a fake gateway on loopback TCP, rtu:// on a pty; "
+            "9600/19200/115200 bps (thorough: 1200..1000000 bps, longer replies, 2 repetitions), 3-4 back-to-back ReadRegisters, the "
+            "reply starting during the client's post-transmit delay or when it is blocked in its read. The gap between the instant "
+            "just before the LAST segment of reply k is handed over and the arrival of the first byte of request k+1 must satisfy "
+            "slow_silence_okb of Model/TimingPieces.v (extracted; the send-time machine run on the delivery plan of the case): "
+            "gap >= t35(speed) (Properties/C19c.v).",
     "assumptions": [
         "rates are 1..10^7 bps (rate 0 divides by zero in serialCharTime; uint rates above 2^63 do not fit time.Duration)",
         "the clock is monotone and time.Sleep(d) returns after at least d (Go runtime monotonic clock)",
@@ -45,7 +54,10 @@ CLAIM = {
             "newRTUTransport on ~70000 rates per run (every rate 1..10^7 in the thorough tier). For every history of exchanges "
             "(replies, timeouts, failed writes), every initial state and every monotone clock with over-sleeping, the model of "
             "ExecuteRequest never starts a transmission earlier than t35 after the end of any earlier received frame, nor earlier "
-            "than t35 after the estimated end (ts + n*t1) of an unanswered transmission (invariant proved by induction over the history).",
+            "than t35 after the estimated end (ts + n*t1) of an unanswered transmission (invariant proved by induction over the history). "
+            "C19c: the same holds when every reply is read in pieces (header, then the rest; byte by byte; any pauses), for every "
+            "rule that records as the end of a received frame an instant not earlier than the return of the read that consumed its "
+            "last byte (the code's time.Now() is one; an end of frame estimated from the header at line rate is proved not to be).",
     "note": "Level proof for the computation clause. The observed-silence clause is PARTIAL: the state-machine theorem is about a "
             "hand-written model of rtu_transport.go:64-107 over an abstract clock; real clocks, scheduler latency, kernel/tty buffering "
             "(Write returns before the bytes are on the line; the code only estimates n*t1) and the physical line are outside the "
